@@ -5,6 +5,8 @@ import (
 	"fmt"
 	"strconv"
 	"strings"
+	"sync"
+	"time"
 
 	"github.com/moorara/algo/list"
 
@@ -13,7 +15,16 @@ import (
 
 const Rule = "cases = (component, block size, op sequence) drawn from VERIF_SEED: block sizes 1-5 and 1024, " +
 	"values from a small universe so Contains hits stale cells; phases of filling and draining so block " +
-	"boundaries are crossed both ways; non-trivial = the history crossed a block boundary at least once in " +
+	"boundaries are crossed both ways; plus a threshold-sweep family run on every check (comp=queue|stack|soft, " +
+	"fam=sweep): block sizes 1-5, 63-65, 255-257, 1023-1025, fills of distinct values (and of values repeating " +
+	"with a period, and of 0/-1/MaxInt64/MinInt64) up to 64/256/1024 blocks and past 1024, 2048 and 65536 values " +
+	"ever added, drained to empty exactly at / one before / one after a block boundary (and one removal past " +
+	"empty) and refilled, with Size/Peek/IsEmpty/Contains (oldest, newest, just removed, not yet added, the values " +
+	"at positions t-1, t, t+1 of every threshold and block boundary) and, for the soft queue, Values at every " +
+	"threshold of size, of values ever added and of values removed; the same without Contains on structures created with a " +
+	"nil equal function (header eq=nil; the library creates its own stacks and queues that way); the soft queue at 65537 values is judged by " +
+	"the Go oracle only (the Model's append-to-a-List Enqueue is quadratic), counted as oracle_only_cases; " +
+	"non-trivial = the history crossed a block boundary at least once in " +
 	"each direction or drained to empty and refilled; distinct = distinct (header, op list)"
 
 func eq(a, b int) bool { return a == b }
@@ -25,8 +36,50 @@ func optInt(v int, ok bool) string {
 	return "ok none"
 }
 
-// Exec runs one case on the real list package and on a slice oracle.
+// caseLimit is the watchdog for one case (the longest ones, 130 000 operations, take a few hundredths of a second).
+const caseLimit = 10 * time.Second
+
+type published struct {
+	mu  sync.Mutex
+	res hx.Result
+}
+
+// Exec runs one case under a watchdog: an operation of the implementation that does not return is reported as
+// `hang` at that operation (the goroutine is left behind; hx.Run stops exploring after a hang).
 func Exec(c hx.Case) hx.Result {
+	pub := &published{res: hx.Result{BadOp: -1}}
+	done := make(chan struct{})
+	go func() {
+		defer close(done)
+		res := execCase(c, pub)
+		pub.mu.Lock()
+		pub.res = res
+		pub.mu.Unlock()
+	}()
+	select {
+	case <-done:
+		return pub.res
+	case <-time.After(caseLimit):
+	}
+	pub.mu.Lock()
+	res := pub.res
+	pub.mu.Unlock()
+	res.Outs = append(append([]string{}, res.Outs...), "hang")
+	if res.BadOp < 0 {
+		res.BadOp = len(res.Outs) - 1
+		op := "?"
+		if res.BadOp < len(c.Ops) {
+			op = c.Ops[res.BadOp]
+		}
+		res.What = fmt.Sprintf("%s did not return within %v", op, caseLimit)
+	}
+	res.Tags = append(append([]string{}, res.Tags...), "hang")
+	return res
+}
+
+// execCase runs one case on the real list package and on a slice oracle; before every operation it publishes
+// what it has so far.
+func execCase(c hx.Case, pub *published) hx.Result {
 	comp := hx.HeaderGet(c.Header, "comp")
 	block, _ := strconv.Atoi(hx.HeaderGet(c.Header, "block"))
 	if block < 1 {
@@ -39,21 +92,35 @@ func Exec(c hx.Case) hx.Result {
 			res.What = fmt.Sprintf(format, a...)
 		}
 	}
+	publish := func() {
+		pub.mu.Lock()
+		pub.res = res
+		pub.mu.Unlock()
+	}
 	tags := map[string]bool{}
 	var model []int // the abstract sequence (queue: front first; stack: bottom first)
 	emptied, refilled := false, false
 	maxLen := 0
+	ever := 0 // values ever added
+	// eq=nil: no equal function (the library itself creates its stacks and queues that way where it never calls
+	// Contains); such a case has no contains op
+	eqf := eq
+	if hx.HeaderGet(c.Header, "eq") == "nil" {
+		eqf = nil
+		tags["equal=nil"] = true
+	}
 
 	switch comp {
 	case "queue", "stack":
 		var q list.Queue[int]
 		var s list.Stack[int]
 		if comp == "queue" {
-			q = list.NewQueue[int](block, eq)
+			q = list.NewQueue[int](block, eqf)
 		} else {
-			s = list.NewStack[int](block, eq)
+			s = list.NewStack[int](block, eqf)
 		}
 		for i, op := range c.Ops {
+			publish()
 			f := strings.Fields(op)
 			out := "bad-op"
 			kind := hx.Try(func() {
@@ -69,6 +136,7 @@ func Exec(c hx.Case) hx.Result {
 						refilled = true
 					}
 					model = append(model, v)
+					ever++
 					if len(model) > maxLen {
 						maxLen = len(model)
 					}
@@ -173,10 +241,11 @@ func Exec(c hx.Case) hx.Result {
 			res.Outs = append(res.Outs, out)
 		}
 	case "soft":
-		q := list.NewSoftQueue[int](eq)
+		q := list.NewSoftQueue[int](eqf)
 		var all []int
 		front := 0
 		for i, op := range c.Ops {
+			publish()
 			f := strings.Fields(op)
 			out := "bad-op"
 			kind := hx.Try(func() {
@@ -275,11 +344,26 @@ func Exec(c hx.Case) hx.Result {
 			res.Outs = append(res.Outs, out)
 		}
 		maxLen = len(all)
+		ever = len(all)
 		refilled = emptied && front < len(all)
 	}
 
 	if maxLen > block {
 		tags["crossed-block"] = true
+	}
+	for _, t := range []int{64, 256, 1024, 2048, 65536} {
+		if ever > t {
+			tags["values-ever-added>"+strconv.Itoa(t)] = true
+		}
+		if comp != "soft" && maxLen > t*block {
+			tags["blocks>"+strconv.Itoa(t)] = true
+		}
+	}
+	if comp != "soft" && block >= 63 && block != 1024 {
+		tags["block-size-63..1025"] = true
+	}
+	if fam := hx.HeaderGet(c.Header, "fam"); fam != "" {
+		tags["fam="+fam] = true
 	}
 	if emptied {
 		tags["drained"] = true
@@ -336,6 +420,275 @@ func genOps(r *hx.Rand, comp string, n, universe int) []string {
 	return ops
 }
 
+// ---------------------------------------------------------------- threshold sweeps (size dimensions)
+
+// thresholds are the sizes programmers pick for masks, counters and blocks.
+var thresholds = []int{1, 2, 64, 256, 1024, 2048, 65536}
+
+func near(m map[int]bool, x int) {
+	for d := -1; d <= 1; d++ {
+		if x+d >= 0 {
+			m[x+d] = true
+		}
+	}
+}
+
+// sweep builds one long history. It keeps an abstract sequence of its own, only to choose what to probe
+// (the verdicts are the oracle's in Exec).
+type sweep struct {
+	comp  string
+	block int             // 0 for the soft queue
+	val   func(i int) int // the i-th value ever added
+	ops   []string
+	live  []int // values held, oldest first
+	ever  int   // values ever added
+	gone  int   // removals that returned a value
+	last  []int // the values removed last (at most 2)
+	marks map[int]bool
+	heavy map[int]bool // soft queue: where Values() is printed too
+}
+
+func newSweep(comp string, block int, val func(int) int) *sweep {
+	s := &sweep{comp: comp, block: block, val: val, marks: map[int]bool{0: true}, heavy: map[int]bool{}}
+	for _, t := range thresholds {
+		near(s.marks, t)
+		if b := block; b > 0 {
+			near(s.marks, t*b)   // t blocks
+			near(s.marks, t/b*b) // the block boundaries next to t values
+			near(s.marks, (t+b-1)/b*b)
+		}
+		if t >= 1024 {
+			near(s.heavy, t)
+		}
+	}
+	return s
+}
+
+func (s *sweep) emit(format string, a ...any) { s.ops = append(s.ops, fmt.Sprintf(format, a...)) }
+
+func (s *sweep) add() {
+	v := s.val(s.ever)
+	s.ever++
+	s.live = append(s.live, v)
+	if s.comp == "stack" {
+		s.emit("push %d", v)
+	} else {
+		s.emit("enq %d", v)
+	}
+	if s.marks[len(s.live)] || s.marks[s.ever] {
+		s.probe(s.heavy[s.ever])
+	}
+}
+
+func (s *sweep) rem() {
+	if s.comp == "stack" {
+		s.emit("pop")
+	} else {
+		s.emit("deq")
+	}
+	if len(s.live) == 0 {
+		return
+	}
+	var v int
+	if s.comp == "stack" {
+		v, s.live = s.live[len(s.live)-1], s.live[:len(s.live)-1]
+	} else {
+		v, s.live = s.live[0], s.live[1:]
+	}
+	s.gone++
+	s.last = append(s.last, v)
+	if len(s.last) > 2 {
+		s.last = s.last[1:]
+	}
+	if s.marks[len(s.live)] || s.marks[s.gone] {
+		s.probe(s.heavy[s.gone])
+	}
+}
+
+// probe: the full battery of queries at this point of the history.
+func (s *sweep) probe(values bool) {
+	s.emit("size")
+	s.emit("isempty")
+	s.emit("peek")
+	var cands []int
+	seen := map[int]bool{}
+	cand := func(v int) {
+		if !seen[v] {
+			seen[v] = true
+			cands = append(cands, v)
+		}
+	}
+	at := func(p int) { // the value at position p of what is held
+		if 0 <= p && p < len(s.live) {
+			cand(s.live[p])
+		}
+	}
+	n := len(s.live)
+	at(0)
+	at(1)
+	at(n - 1)
+	at(n - 2)
+	at(n / 2)
+	for _, v := range s.last {
+		cand(v)
+	}
+	cand(s.val(s.ever)) // not added yet
+	if b := s.block; b > 0 {
+		// the cells on both sides of the first and the last block boundary inside what is held
+		at(b - 1)
+		at(b)
+		at(n - b - 1)
+		at(n - b)
+	} else {
+		// soft queue: positions count from the first value ever added
+		for _, t := range thresholds {
+			for d := -1; d <= 1; d++ {
+				if j := t + d; j >= 0 && j <= s.ever {
+					cand(s.val(j))
+				}
+			}
+		}
+		cand(s.val(0))
+	}
+	for _, v := range cands {
+		s.emit("contains %d", v)
+	}
+	if values && s.comp == "soft" {
+		s.emit("values")
+	}
+}
+
+// history: fill n, drain all but `leave` (leave = 0: one more removal on the empty structure), refill past one
+// block, drain half of that, add one, drain everything and remove once more.
+func (s *sweep) history(n, leave int) hx.Case {
+	for i := 0; i < n; i++ {
+		s.add()
+	}
+	s.probe(true)
+	for len(s.live) > leave {
+		s.rem()
+	}
+	if leave == 0 {
+		s.rem()
+	}
+	s.probe(true)
+	m := s.block + 2
+	if s.block == 0 || m > 70 {
+		m = 7
+	}
+	for i := 0; i < m; i++ {
+		s.add()
+	}
+	s.probe(false)
+	for i := 0; i < (m+1)/2; i++ {
+		s.rem()
+	}
+	s.probe(false)
+	s.add()
+	for len(s.live) > 0 {
+		s.rem()
+	}
+	s.rem()
+	s.probe(true)
+	hdr := fmt.Sprintf("comp=%s block=%d fam=sweep", s.comp, s.block)
+	if s.comp == "soft" {
+		hdr = "comp=soft fam=sweep"
+	}
+	return hx.Case{Header: hdr, Ops: s.ops}
+}
+
+// withoutContains: the same history for a structure created with a nil equal function.
+func withoutContains(c hx.Case) hx.Case {
+	var ops []string
+	for _, op := range c.Ops {
+		if !strings.HasPrefix(op, "contains") {
+			ops = append(ops, op)
+		}
+	}
+	return hx.Case{Header: c.Header + " eq=nil", Ops: ops}
+}
+
+func distinct(i int) int { return i } // the first value is 0, Go's zero value of int: unused cells hold it too
+
+func periodic(p int) func(int) int { return func(i int) int { return i % p } }
+
+var extremeVals = []int{0, -1, 1<<63 - 1, -1 << 63, 1}
+
+func extremes(i int) int { return extremeVals[(i*i+i/3)%len(extremeVals)] }
+
+// sweeps: the threshold family. Everything here is deterministic (no draw from the PRNG): it runs on every check.
+func sweeps(run *hx.Run) {
+	type cfg struct{ block, blocks int }
+	// block size x number of blocks filled: 64 / 256 blocks for the small sizes, past 1024 and 2048 values for the
+	// large ones
+	cfgs := []cfg{{1, 257}, {2, 257}, {3, 257}, {4, 257}, {5, 257},
+		{63, 17}, {64, 17}, {65, 17}, {255, 5}, {256, 5}, {257, 5}, {1023, 3}, {1024, 3}, {1025, 3},
+		{1, 2049}, {2, 1025}, {5, 411}} // the small block sizes past 2048 values (1024 blocks of 2)
+	if run.Thorough() {
+		cfgs = append(cfgs, cfg{1, 1025}, cfg{2, 1025}, cfg{3, 1025}, cfg{5, 1025}, cfg{63, 66}, cfg{64, 65}, cfg{65, 258},
+			cfg{255, 9}, cfg{256, 17}, cfg{257, 9}, cfg{1023, 5}, cfg{1025, 5})
+	}
+	for _, comp := range []string{"queue", "stack"} {
+		for _, c := range cfgs {
+			n := c.block * c.blocks
+			// empty exactly at a block boundary; one value before it; one value after it, leaving one behind
+			run.Do(comp, newSweep(comp, c.block, distinct).history(n, 0), Exec)
+			run.Do(comp, newSweep(comp, c.block, distinct).history(n-1, 0), Exec)
+			run.Do(comp, newSweep(comp, c.block, distinct).history(n+1, 1), Exec)
+			if run.Thorough() {
+				run.Do(comp, newSweep(comp, c.block, distinct).history(n+1, 0), Exec)
+				run.Do(comp, newSweep(comp, c.block, distinct).history(n, 1), Exec)
+				run.Do(comp, newSweep(comp, c.block, periodic(c.block+1)).history(n, 0), Exec)
+			}
+		}
+		// values that repeat with a period just above the block size, and extreme magnitudes
+		for _, b := range []int{1, 2, 3, 5, 64, 1024} {
+			run.Do(comp, newSweep(comp, b, periodic(b+1)).history(2*b+67, 0), Exec)
+			run.Do(comp, newSweep(comp, b, extremes).history(3*b+1, 1), Exec)
+		}
+		// past 65536 values: the library's own block size (64 blocks), and 1024 blocks of 64
+		run.Do(comp, newSweep(comp, 1024, distinct).history(65*1024, 0), Exec)
+		run.Do(comp, newSweep(comp, 64, distinct).history(1025*64+1, 1), Exec)
+		if run.Thorough() {
+			run.Do(comp, newSweep(comp, 1024, periodic(1025)).history(65*1024+1, 0), Exec)
+			run.Do(comp, newSweep(comp, 256, distinct).history(257*256, 0), Exec)
+			run.Do(comp, newSweep(comp, 65, distinct).history(70000, 1), Exec)
+		}
+	}
+	// no equal function, no Contains
+	for _, comp := range []string{"queue", "stack", "soft"} {
+		for _, b := range []int{1, 3, 64, 1024} {
+			if comp == "soft" && b != 1 {
+				continue
+			}
+			c := newSweep(comp, b, distinct).history(2*b+67, 0)
+			if comp == "soft" {
+				c = newSweep(comp, 0, distinct).history(1030, 0)
+			}
+			run.Do(comp, withoutContains(c), Exec)
+		}
+	}
+	// the soft queue has no block size: values ever added / values removed / size
+	for _, n := range []int{1023, 1024, 1025, 2049} {
+		run.Do("soft", newSweep("soft", 0, distinct).history(n, 0), Exec)
+	}
+	run.Do("soft", newSweep("soft", 0, periodic(1030)).history(2100, 1), Exec)
+	run.Do("soft", newSweep("soft", 0, extremes).history(70, 0), Exec)
+	if run.Thorough() {
+		run.Do("soft", newSweep("soft", 0, distinct).history(4100, 1), Exec)
+		run.Do("soft", newSweep("soft", 0, periodic(1024)).history(3100, 0), Exec)
+	}
+	// 65537 values: the Model's Enqueue appends to a List (quadratic): judged by the oracle only
+	big := newSweep("soft", 0, distinct).history(65537, 0)
+	big.NoModel = true
+	run.Do("soft", big, Exec)
+	if run.Thorough() {
+		big = newSweep("soft", 0, periodic(65000)).history(70001, 1)
+		big.NoModel = true
+		run.Do("soft", big, Exec)
+	}
+}
+
 // exhaustive enumerates every op sequence of the given length over the alphabet.
 func exhaustive(alpha []string, n int, f func([]string)) {
 	idx := make([]int, n)
@@ -382,6 +735,9 @@ func Main(run *hx.Run) {
 			run.Do(comp, c, Exec)
 		}
 	}
+	// the threshold family comes after the short random histories: a change that breaks everyday behaviour is then
+	// reported (and shrunk) on a short history, and the long ones only speak up for what needs their size
+	sweeps(run)
 	if run.Thorough() {
 		// every history of length ≤ 7 over {add 0, add 1, remove, contains 0, contains 1} for blocks 1..3
 		for _, comp := range []string{"queue", "stack"} {
